@@ -707,8 +707,9 @@ ChildDie(h) ==
   /\ hist' = Append(hist, EnvRec("die", h, [sig |-> SIGTERM]))
   /\ UNCHANGED <<life, stv, opt, pend, buf, cnt, now, fr, ncalls>>
 
+\* (a child that has ended writes no more, but a descendant that inherited its stdout / stderr may: ChildExitG keeps fd)
 ChildOut(h, n) ==
-  /\ EnvOK /\ ch[h].alive = "run" /\ ch[h].fd[2] = "po" /\ pend[h].o
+  /\ EnvOK /\ ch[h].alive \in {"run", "zombie", "reaped"} /\ ch[h].fd[2] = "po" /\ pend[h].o
   /\ BLen(buf[h].o) + n <= PipeCap /\ cnt[h].cw1 + n <= MaxOut
   /\ buf' = [buf EXCEPT ![h].o = BAppend(@, 1, n)]
   /\ cnt' = [cnt EXCEPT ![h].cw1 = @ + n]
@@ -716,7 +717,7 @@ ChildOut(h, n) ==
   /\ UNCHANGED <<life, stv, opt, pend, ch, now, fr, ncalls>>
 
 ChildErr(h, n) ==
-  /\ EnvOK /\ ch[h].alive = "run" /\ ch[h].fd[3] \in {"po", "pe"} /\ cnt[h].cw2 + n <= MaxOut
+  /\ EnvOK /\ ch[h].alive \in {"run", "zombie", "reaped"} /\ ch[h].fd[3] \in {"po", "pe"} /\ cnt[h].cw2 + n <= MaxOut
   /\ IF ch[h].fd[3] = "po"
        THEN /\ pend[h].o /\ BLen(buf[h].o) + n <= PipeCap
             /\ buf' = [buf EXCEPT ![h].o = BAppend(@, 2, n)]
